@@ -180,6 +180,9 @@ def _compress_body_gzip(data: bytes, level: int) -> bytes:
     return co.compress(data) + co.flush(zlib.Z_FINISH)
 
 
+_GZIP_TRUNCATED_MESSAGE = "gzip stream ended before its end-of-stream marker (truncated or empty body)"
+
+
 def _decompress_body_gzip(data: bytes, *, max_output_size: int | None = None) -> bytes:
     """Decompress gzip-encoded *data* with optional output cap.
 
@@ -190,7 +193,10 @@ def _decompress_body_gzip(data: bytes, *, max_output_size: int | None = None) ->
     """
     do = zlib.decompressobj(_GZIP_WBITS)
     if max_output_size is None:
-        return do.decompress(data) + do.flush()
+        out = do.decompress(data) + do.flush()
+        if not do.eof:
+            raise DecompressionError(_GZIP_TRUNCATED_MESSAGE)
+        return out
 
     chunks: list[bytes] = []
     total = 0
@@ -214,6 +220,12 @@ def _decompress_body_gzip(data: bytes, *, max_output_size: int | None = None) ->
         if total > max_output_size:
             raise DecompressionLimitExceeded(f"Decompressed gzip output exceeds max_output_size={max_output_size}")
         chunks.append(tail)
+    # zlib does not complain when the input simply stops: without this a body
+    # cut anywhere (including just before the CRC32/ISIZE trailer, which is the
+    # only integrity check gzip has) decoded "successfully" to a prefix of the
+    # plaintext.
+    if not do.eof:
+        raise DecompressionError(_GZIP_TRUNCATED_MESSAGE)
     return b"".join(chunks)
 
 
